@@ -8,6 +8,7 @@ import Driver.C06
 import Driver.C15
 import Driver.C19
 import Driver.C18
+import Driver.Alloc
 
 open Driver
 
@@ -26,6 +27,7 @@ def main (args : List String) : IO Unit :=
   | ["msgauto"] => runLoop TraceSt.none msgautoStep
   | ["barrier"] => runLoop ({} : BarSt) barrierStep
   | ["topo"] => runLoop ({} : TopoState) c19
+  | ["alloc"] => runLoop ({} : AllocSt) allocStep
   | ["heap"] => runLoop ({} : HeapSt) heapStep
   | ["par"] => runLoop ({} : Driver.Run.Sys) Driver.Run.parStep
   | ["seq"] => runLoop ({} : Driver.Run.SeqSys) Driver.Run.seqStep
